@@ -9,10 +9,14 @@ import (
 func init() {
 	verifHarnesses["VerifC07MapOrder"] = VerifC07MapOrder
 	verifHarnesses["VerifC07MapOrderEdgy4"] = VerifC07MapOrderEdgy4
+	verifHarnesses["VerifC07MapOrderEdgy"] = VerifC07MapOrderEdgy
 	verifHarnesses["VerifC07RingDirection"] = VerifC07RingDirection
 	verifHarnesses["VerifC07RingDirectionHole"] = VerifC07RingDirectionHole
 	verifHarnesses["VerifC07ReverseFlag"] = VerifC07ReverseFlag
+	verifHarnesses["VerifC07ReverseFlagEdgy"] = VerifC07ReverseFlagEdgy
+	verifHarnesses["VerifC07RingDirectionHalf"] = VerifC07RingDirectionHalf
 	verifHarnesses["VerifC08Levels"] = VerifC08Levels
+	verifHarnesses["VerifC08LevelsAll"] = VerifC08LevelsAll
 	verifHarnesses["VerifC08LevelsEdgy4"] = VerifC08LevelsEdgy4
 	verifHarnesses["VerifC08LevelsEighth"] = VerifC08LevelsEighth
 	verifHarnesses["VerifC03Levels"] = VerifC03Levels
@@ -37,29 +41,34 @@ func verifSameResult(a, b map[tms20.TMID][]geom.Polygon) bool {
 // O-1: same polygon, same settings; the second execution iterates every map in a nondeterministically chosen order.
 func verifC07MapOrderBody(sizes []int, wx, wy, W, mode, idsel int) {
 	poly, _ := verifAnyPolygon(sizes, wx, wy, W, mode)
-	cfg := verifCfg()
 	ids := verifIDs(idsel)
 	tms := verifSyntheticTMS(2)
-	verifMapOrder(0)
-	r1, p1 := verifSnapCatch(poly, tms, ids, cfg)
-	verifMapOrder(1)
-	r2, p2 := verifSnapCatch(poly, tms, ids, cfg)
-	verifMapOrder(0)
-	verifCover("twice")
-	verifAssert(p1 == p2, "C07.O1.same-panic-behaviour")
-	if !p1 && !p2 {
-		verifAssert(verifSameResult(r1, r2), "C07.O1.identical-under-any-map-order")
+	for _, cfg := range []Config{{}, {KeepPointsAndLines: true, ReverseWindingOrder: true}} {
+		verifMapOrder(0)
+		r1, p1 := verifSnapCatch(poly, tms, ids, cfg)
+		verifMapOrder(1)
+		r2, p2 := verifSnapCatch(poly, tms, ids, cfg)
+		verifMapOrder(0)
+		verifCover("twice")
+		verifAssert(p1 == p2, "C07.O1.same-panic-behaviour")
+		if !p1 && !p2 {
+			verifAssert(verifSameResult(r1, r2), "C07.O1.identical-under-any-map-order")
+		}
 	}
 }
 
-func VerifC07MapOrder()      { verifC07MapOrderBody([]int{3}, 7, 7, 2, verifEdgy, 2) }
+func VerifC07MapOrder()      { verifC07MapOrderBody([]int{3}, 7, 7, 2, verifCentre, 2) }
+func VerifC07MapOrderEdgy()  { verifC07MapOrderBody([]int{3}, 7, 7, 2, verifEdgy, 2) }
 func VerifC07MapOrderEdgy4() { verifC07MapOrderBody([]int{4}, 7, 7, 2, verifCentre, 2) }
 
 // O-2: a valid polygon written with any subset of its rings reversed gives identical geometry.
-func VerifC07RingDirection() {
-	ring, L := verifValidRing(3+verifConcretizeInt(int(verifNondetInt("extra", 0, 1))), 7, 7, 2, verifHalf)
+func VerifC07RingDirection()     { verifC07RingDirectionBody(3, verifFull, 0) }
+func VerifC07RingDirectionHalf() { verifC07RingDirectionBody(3+verifConcretizeInt(int(verifNondetInt("extra", 0, 1))), verifHalf, 2) }
+
+func verifC07RingDirectionBody(n, mode, idsel int) {
+	ring, L := verifValidRing(n, 7, 7, 2, mode)
 	_ = L
-	ids := verifIDs(2)
+	ids := verifIDs(idsel)
 	tms := verifSyntheticTMS(2)
 	rev := make([][2]float64, len(ring))
 	for i := range ring {
@@ -102,8 +111,11 @@ func VerifC07RingDirectionHole() {
 
 // O-3: the reverse-winding flag changes nothing but the direction of every returned ring (rings of 1-2 vertices
 // carry no winding: same vertex set required).
-func VerifC07ReverseFlag() {
-	poly, _ := verifAnyPolygon([]int{3 + verifConcretizeInt(int(verifNondetInt("extra", 0, 1)))}, 7, 7, 2, verifEdgy)
+func VerifC07ReverseFlag()     { verifC07ReverseFlagBody(4, verifCentre) }
+func VerifC07ReverseFlagEdgy() { verifC07ReverseFlagBody(3+verifConcretizeInt(int(verifNondetInt("extra", 0, 1))), verifEdgy) }
+
+func verifC07ReverseFlagBody(n, mode int) {
+	poly, _ := verifAnyPolygon([]int{n}, 7, 7, 2, mode)
 	keep := verifConcretizeBool(verifNondetBool("keep"))
 	ids := verifIDs(2)
 	tms := verifSyntheticTMS(2)
@@ -157,10 +169,16 @@ func VerifC07ReverseFlag() {
 // ---------------------------------------------------------------- C08
 
 // O-1/O-2: keys are requested ids only; the geometry of a tile matrix is the same alone or with others.
-func verifC08Body(sizes []int, wx, wy, W, mode int) {
+func verifC08Body(sizes []int, wx, wy, W, mode int, all bool) {
 	poly, _ := verifAnyPolygon(sizes, wx, wy, W, mode)
-	for _, cfg := range verifCfgs() {
-		for _, pair := range [][]tms20.TMID{{0, 1}, {0, 2}, {1, 2}, {1, 0}} {
+	cfgs := []Config{{}}
+	pairs := [][]tms20.TMID{{0, 1}, {0, 2}, {1, 2}}
+	if all {
+		cfgs = verifCfgs()
+		pairs = append(pairs, []tms20.TMID{1, 0})
+	}
+	for _, cfg := range cfgs {
+		for _, pair := range pairs {
 			verifC08One(poly, cfg, pair)
 		}
 	}
@@ -193,16 +211,17 @@ func verifC08One(poly geom.Polygon, cfg Config, pair []tms20.TMID) {
 	}
 }
 
-func VerifC08Levels()      { verifC08Body([]int{3}, 7, 7, 2, verifEdgy) }
-func VerifC08LevelsEdgy4() { verifC08Body([]int{4}, 7, 7, 2, verifCentre) }
-func VerifC08LevelsEighth() { verifC08Body([]int{3}, 7, 7, 2, verifEighth) }
+func VerifC08Levels()      { verifC08Body([]int{3}, 7, 7, 2, verifEdgy, false) }
+func VerifC08LevelsAll()   { verifC08Body([]int{3}, 7, 7, 2, verifEdgy, true) }
+func VerifC08LevelsEdgy4() { verifC08Body([]int{4}, 7, 7, 2, verifCentre, true) }
+func VerifC08LevelsEighth() { verifC08Body([]int{3}, 7, 7, 2, verifEighth, false) }
 
 // ---------------------------------------------------------------- C03 O-2: coordinates of tile matrix z are centres of level z+4
 
 func VerifC03Levels() {
 	poly, _ := verifAnyPolygon([]int{3}, 7, 7, 2, verifEdgy)
-	for _, cfg := range verifCfgs() {
-		for idsel := 0; idsel < 7; idsel++ {
+	for _, cfg := range []Config{{}, {KeepPointsAndLines: true, ReverseWindingOrder: true}} {
+		for _, idsel := range []int{1, 2, 4, 6} { // {1}, {0,1}, {0,2}, {0,1,2}
 			verifC03One(poly, cfg, verifIDs(idsel))
 		}
 	}
